@@ -44,7 +44,24 @@ func EncFull(v any) string {
 	return sb.String()
 }
 
+// maxEncBytes bounds an encoding: values that share sub-values (`[., .]` nested forty times) are
+// small in memory and astronomically large as trees; beyond the bound the encoding ends with a mark.
+const maxEncBytes = 4 << 20
+
+const tooBigMark = "<too-big>"
+
+// TooBig reports whether an encoding was cut at maxEncBytes.
+func TooBig(enc string) bool {
+	return len(enc) >= maxEncBytes && strings.Contains(enc[maxEncBytes-len(tooBigMark):], tooBigMark)
+}
+
 func encp(sb *strings.Builder, v any, depth int, path map[uintptr]bool, full bool) {
+	if sb.Len() >= maxEncBytes {
+		if !strings.HasSuffix(sb.String(), tooBigMark) {
+			sb.WriteString(tooBigMark)
+		}
+		return
+	}
 	if depth >= cycleFrom {
 		var p uintptr
 		switch v := v.(type) {
